@@ -178,7 +178,6 @@ func (s *Schema) ModelTypes() map[string]reflect.Type {
 		t := s.Tables[tn]
 		fields := []reflect.StructField{
 			{Name: "UUID", Type: reflect.TypeOf(""), Tag: `ovsdb:"_uuid"`},
-			{Name: "T_" + sanitize(s.Name) + "_" + sanitize(tn), Type: reflect.TypeOf(struct{}{}), Tag: `json:"-"`},
 		}
 		for _, cn := range t.ColNames {
 			c := t.Columns[cn]
@@ -195,6 +194,10 @@ func (s *Schema) ModelTypes() map[string]reflect.Type {
 			}
 			fields = append(fields, reflect.StructField{Name: FieldName(cn), Type: ft, Tag: reflect.StructTag(fmt.Sprintf(`ovsdb:"%s"`, cn))})
 		}
+		// a marker field makes the type unique per table (FindTable maps types to
+		// tables); it goes last and is not zero-sized so that no mapped field
+		// shares its offset (ColumnByPtr identifies fields by offset)
+		fields = append(fields, reflect.StructField{Name: "T_" + sanitize(s.Name) + "_" + sanitize(tn), Type: reflect.TypeOf(false), Tag: `json:"-"`})
 		out[tn] = reflect.StructOf(fields)
 	}
 	return out
